@@ -49,7 +49,36 @@ def _c10(tier, seed):
     return ps + families.canaries_into(ps)
 
 
+def _c04(tier, seed):
+    ps = families.c04(tier, seed)
+    return ps + families.canaries_c04(ps)
+
+
+def _c06(tier, seed):
+    ps = families.c06(tier, seed)
+    return ps + families.canaries_debug(ps)
+
+
 PROPS = {
+    "C06": {
+        "family": _c06, "kani": False, "engine": "verus",
+        "bounds": {"quick": "structs named/tuple/unit n<=3 x type name {default, custom, disabled} x named_field {default, flipped} x up to 6 field assignments over {plain, ignore, renamed key}; enums: 10 variant-kind combinations x enum name {off, on, renamed} x 3 variant-name rotations {default, disabled, custom} with named_field flips; every spelling of each parameter in rotation",
+                   "thorough": "n<=4, all field assignments; +60 sampled enums"},
+        "trusted": ["assume_specification for Formatter::{write_str, debug_struct, debug_tuple}, DebugStruct::{field, finish}, DebugTuple::{field, finish}: they thread an uninterpreted call trace",
+                    "two axioms about core::fmt: a builder finished with no field writes exactly its name"],
+        "assumptions": ["partial: fields with a custom method and the nameless struct-style (debug_map) form are outside Verus' subset (items declared inside fn fmt) and are NOT decided",
+                        "byte-identity with #[derive(Debug)] is not checked directly; it follows from the oracle being std's documented builder sequence",
+                        "no Kani side: core::fmt does not terminate under CBMC (measured > 15 min for one struct); a failed obligation is replayed natively ({:?} and {:#?} against core::fmt's builders on the effective shape)"],
+        "explanation": "generated Debug::fmt verified verbatim: its builder-call trace (for every formatter state, hence compact and pretty) equals the effective shape's",
+    },
+    "C04": {
+        "family": _c04,
+        "bounds": {"quick": "generic-payload enums: 13 discriminant configurations x legal reprs x 7 variant shapes (1-4 variants), every third + all of b128/nonmono/b255; concrete layout grid: 10 payload kinds (u8,bool,char,&u8,NonZeroU8,Option<u8>,nested enum,(),[u8;0],u32) x 8 shapes + 7 specials; every 4th also through a #[repr(C)] wrapper with symbolic neighbour bytes",
+                   "thorough": "all generic configurations; 14 shapes per payload kind"},
+        "trusted": ["Kani's pinned nightly lays the grid enums out like the user's toolchain (irrelevant while the expansion contains no raw read)"],
+        "assumptions": ["declared discriminant computed by the generator from the program (explicit = n, else predecessor + 1)"],
+        "explanation": "cross-variant order == declared-discriminant order: Verus proves the verbatim generated cmp/partial_cmp generically in the payload (safe code cannot observe layout); Kani proves it on rustc's actual layouts incl. niches, single-variant and zero-sized enums, with CBMC pointer checks",
+    },
     "C10": {
         "family": _c10,
         "bounds": {"quick": "sole-field structs x 9 (field type, 1-3 targets) x {plain, method} x {named,tuple}; 8 multi-field layouts x designation choices (marker / unique type, <=8 each) x {plain, method}; enums 1-4 variants x {1,2} targets with per-variant designation",
